@@ -735,6 +735,9 @@ class Engine(object):
     table = self.tables[table_id]
     col = table.get_column(col_id)
     checkpoint = self._get_undo_checkpoint()
+    # Formulas may also mark records for automatic removal (docmodel.setAutoRemove()); remember
+    # the marks so that this evaluation leaves them as they were.
+    auto_removes = self.docmodel.get_auto_removes()
     # Makes calls to REQUEST synchronous, since raising a RequestingError can't work here.
     self._sync_request = True
     try:
@@ -745,6 +748,7 @@ class Engine(object):
       # processed (e.g. don't get applied to DocStorage), so it's important to reverse them.
       self._sync_request = False
       self._undo_to_checkpoint(checkpoint)
+      self.docmodel.set_auto_removes(auto_removes)
 
   def _recompute(self, node, row_ids=None):
     """
